@@ -46,6 +46,8 @@ CONSTANTS NF = %(nf)d
  PipeLen = %(pipelen)d
  NPipe = %(npipe)d
  AllCK = %(allck)s
+ LongLen = %(longlen)d
+ NLong = %(nlong)d
 """
 
 JUDGE_CFG = """SPECIFICATION JudgeSpec
@@ -360,17 +362,21 @@ class Batch:
     def kind_request(self, q, p):
         L, F = self.L, self.factory
         rec = {k: q[k] for k in ("mode", "f", "ck", "pk", "og", "ag", "cks", "call")}
-        rec["f"] = sorted(q["f"])
+        # the kind: universe features by index + (long pipelines) further features by name
+        for n in q.get("xf", []):
+            if n not in self.fid or n in L.deprecated:
+                raise MachineryError("extra feature %r of a request is not a current feature of the library" % n)
+        feats = rec["f"] = sorted(set(q["f"]) | {self.fid[n] for n in q.get("xf", [])})
         rec["p"] = p
         skip = {"k": "skip", "n": [], "st": [], "x": ""}
         if q["call"] == "pipe":
             cks = [self._val(L.CompilationKind, c) for c in q["cks"]]
-            rec["obs"] = self._call(F.Compiler, {"problem_kind": self.kind_of(q["f"]), "compilation_kinds": cks})
+            rec["obs"] = self._call(F.Compiler, {"problem_kind": self.kind_of(feats), "compilation_kinds": cks})
             rec["all"] = {"k": "skip", "n": [], "x": ""}
-            self._rk_closure(q["f"], q["cks"])
+            self._rk_closure(feats, q["cks"])
         else:
             if q["call"] == "mode":
-                kw = {"problem_kind": self.kind_of(q["f"])}
+                kw = {"problem_kind": self.kind_of(feats)}
                 mode = q["mode"]
                 if mode == "oneshot_planner":
                     fn = F.OneshotPlanner
@@ -397,7 +403,7 @@ class Batch:
                 rec["obs"] = self._call(fn, kw)
             else:
                 rec["obs"] = skip
-            rec["all"] = self._call_all(self.kind_of(q["f"]), q)
+            rec["all"] = self._call_all(self.kind_of(feats), q)
         self.reqs.append(rec)
         return rec
 
@@ -496,13 +502,23 @@ def describe(batch, rec):
     if "ing" in rec:
         out["problem_ingredients"] = rec["ing"]
     if rec["cks"]:
+        # the recorded rows of the resulting-kind table that can matter for this request: per stage, every
+        # registered compiler declaring the stage's compilation kind on every kind that can reach the stage
+        # (a walk through the recorded table; nothing is selected here)
         kind = lambda ids: [batch.ft[i - 1] for i in ids]
-        rows = [(e, ck, fs, o) for (e, ck, fs), o in batch.rk.items() if ck in rec["cks"] and set(fs) <= set(rec["f"]) | set(range(1, len(batch.universe) + 1))]
-        out["resulting_problem_kind_rows"] = [
-            {"engine": name(e), "compilation_kind": ck, "in": kind(sorted(fs)), "out": kind(o["f"]) if o["k"] == "kind" else "raises " + o["x"]}
-            for e, ck, fs, o in sorted(rows, key=lambda t: (t[0], t[1], sorted(t[2])))
-            if all(i <= len(batch.universe) for i in fs)
-        ][:40]
+        rows, frontier = [], {frozenset(rec["f"])}
+        for st, ck in enumerate(rec["cks"]):
+            nxt = set()
+            for fs in sorted(frontier, key=sorted):
+                for e in range(1, len(batch.names) + 1):
+                    o = batch.rk.get((e, ck, fs))
+                    if o is None:
+                        continue
+                    rows.append({"stage": st + 1, "engine": name(e), "compilation_kind": ck, "in": kind(sorted(fs)), "out": kind(o["f"]) if o["k"] == "kind" else "raises " + o["x"]})
+                    if o["k"] == "kind":
+                        nxt.add(frozenset(o["f"]))
+            frontier = nxt
+        out["resulting_problem_kind_rows"] = rows[:60]
     return out
 
 
@@ -583,8 +599,8 @@ def judge(ctx, label, batches, stats_all):
 # ----------------------------------------------------------------------------------------
 def bounds(ctx):
     if ctx.quick:
-        return dict(nf=6, groups=8, nc=24, pipelen=2, npipe=5, allck="FALSE")
-    return dict(nf=8, groups=64, nc=80, pipelen=3, npipe=6, allck="TRUE")
+        return dict(nf=6, groups=8, nc=24, pipelen=2, npipe=5, allck="FALSE", longlen=4, nlong=12)
+    return dict(nf=8, groups=64, nc=80, pipelen=3, npipe=6, allck="TRUE", longlen=5, nlong=40)
 
 
 def design_check(ctx):
@@ -639,7 +655,9 @@ def enumerate_cases(ctx, bnd):
     reqs = tlc.read_ndjson(outs["reqs"])
     probs = tlc.read_ndjson(outs["probs"])
     cfgs = sorted(tlc.read_ndjson(outs["cfgs"]), key=lambda c: c["id"])
-    reqs.sort(key=lambda r: (r["mode"], r["call"], sorted(r["f"]), r["ck"], r["pk"], r["og"], r["ag"], r["cks"]))
+    for r in reqs:
+        r["xf"] = sorted(r["xf"])
+    reqs.sort(key=lambda r: (r["mode"], r["call"], sorted(r["f"]), r["xf"], r["ck"], r["pk"], r["og"], r["ag"], r["cks"]))
     probs.sort(key=lambda r: (r["mode"], r["og"], sorted(r["ing"])))
     if len(reqs) < 1000 or len(cfgs) != bnd["nc"] or not probs:
         raise MachineryError("enumeration too small: %d requests, %d problem requests, %d configurations" % (len(reqs), len(probs), len(cfgs)))
@@ -709,12 +727,19 @@ def run(ctx):
     mid = batches[len(batches) // 2]
     ctx.sample({"kind": "request on the built-in registry", "request": describe(b0, b0.reqs[len(b0.reqs) // 3])})
     ctx.sample({"kind": "request on a registry with mock engines", "request": describe(mid, mid.reqs[len(mid.reqs) // 2])})
+    longs = [(b, r) for b in batches for r in b.reqs if len(r["cks"]) >= 3]
+    ctx.notes["long_pipeline_requests"] = len(longs)
+    ctx.notes["long_pipelines_returned"] = sum(1 for _, r in longs if r["obs"]["k"] == "pipeline")
+    for b, r in longs:
+        if r["obs"]["k"] == "pipeline":
+            ctx.sample({"kind": "pipeline request of three or more stages", "request": describe(b, r)})
+            break
     # ---- T3: TLC judges ------------------------------------------------------------------------
     lacks, outcomes = judge(ctx, "all", batches, stats_all=True)
     need = {"mode", "problem-kind", "compilation-kind", "plan-kind", "optimality-guarantee", "anytime-guarantee", ""}
     if not need <= lacks:
         raise MachineryError("vacuous run: clauses of Qualifies never decisive: %r" % sorted(need - lacks))
-    if not {"engine", "none", "pipe-pipeline", "pipe-none"} <= outcomes:
+    if not {"engine", "none", "pipe-pipeline", "pipe-none", "long-pipeline", "long-none-at-late-stage"} <= outcomes:
         raise MachineryError("vacuous run: outcomes never demanded by the specification: %r" % sorted(outcomes))
     t_judge = time.time()
     ctx.notes["phase_seconds"] = {"t1": round(t_t1 - t0, 1), "enum": round(t_enum - t_t1, 1), "requests": round(t_req - t_enum, 1), "judge": round(t_judge - t_req, 1)}
@@ -724,11 +749,12 @@ def run(ctx):
     ctx.cov["rule"] = (
         "T1: exhaustive check of Factory's Impl layer against its Spec layer over small registries (MCFactory). "
         "T2/T3: TLC (FactoryEnum) emits every request over the %d-feature universe %s (%d kinds x modes x requirements, "
-        "pipelines of <= %d compilation kinds, %d problem-based requests) and %d mock configurations (strided walk through a "
+        "every pipeline of <= %d compilation kinds + %d sampled pipelines of 3..%d compilation kinds over kinds with further features, "
+        "%d problem-based requests) and %d mock configurations (strided walk through a "
         "profile space of %d); the built-in registry answers all of them under its default preference list and whole kind slices under %d "
         "further lists (reversed, a strict sub-list, a rotation), each mock registry one kind slice (1/%d) under 2 preference lists; %d requests issued on %d fresh Environments, every answer judged by Factory!Select / Pipe. "
         "Non-trivial = the factory returned an engine or a pipeline."
-        % (bnd["nf"], universe, univ["kinds"], bnd["pipelen"], len(probs), bnd["nc"], univ["space"], len(b0.prefs) - 1, bnd["groups"], nreq, len(batches))
+        % (bnd["nf"], universe, univ["kinds"], bnd["pipelen"], univ["longpipes"], bnd["longlen"], len(probs), bnd["nc"], univ["space"], len(b0.prefs) - 1, bnd["groups"], nreq, len(batches))
     )
     ctx.cov["exhaustive"] = True
     ctx.assumptions += [
